@@ -208,6 +208,18 @@ def check_model(spec, stats, failures):
                     continue
                 guard(sem.assign_src_dst, line, what="assign_src_dst(%s)" % text)
                 guard(sem.assign_tp_lt, line, what="assign_tp_lt(%s)" % text)
+                if is_isa:
+                    # the semantic roles (hidden operands included) are what the dependency analysis consumes:
+                    # a two-line kernel of the instruction goes through graph, critical path and LCD search
+                    from osaca.semantics import KernelDG
+                    kern = guard(parser.parse_file, text + "\n" + text + "\n", what="parse_file")
+                    guard(sem.add_semantics, kern, what="add_semantics(%s)" % text)
+                    for fd in (False, True):
+                        dg = guard(KernelDG, kern, parser, amm, sem, timeout=-1, flag_dependencies=fd,
+                                   what="KernelDG(%s)" % text)
+                        guard(dg.get_critical_path, what="get_critical_path(%s)" % text)
+                        guard(dg.get_loopcarried_dependencies, what="get_loopcarried_dependencies(%s)" % text)
+                    cl.append("isa-entry-through-dependency-analysis")
                 done += 1
             if done:
                 cl.append("costed-through-synthesised-instruction")
